@@ -49,7 +49,7 @@ class C08(Check):
                    'each mode is compared with branches run in the SAME mode, so early completion after take/first on plain observables is part of the reference',
                    'branch programs whose standalone run errors (mean(reduce) on an empty key ...) are discarded']
     ANCHORS = ['rxsci/operators/tee_map.py', 'rxsci/mux/muxconnectable.py']
-    REQUIRED_TAGS = ['plain', 'mux', 'group', 'roll', 'roll_eq', 'split', 'zip', 'merge', 'combine_latest', 'branches=2', 'branches=3', 'branches=4', 'nested-tee', 'over-256-keys', 'after-aborted-subscriptions', 'prelude:dispose', 'prelude:peek', 'a-branch-with-failing-records', 'rx-native-branch-with-inner-observables', 'branches>=9', 'a-key-slot-reused-by-hundreds-of-windows-while-a-value-waits-in-the-join']
+    REQUIRED_TAGS = ['plain', 'mux', 'group', 'roll', 'roll_eq', 'split', 'zip', 'merge', 'combine_latest', 'branches=2', 'branches=3', 'branches=4', 'nested-tee', 'over-256-keys', 'after-aborted-subscriptions', 'prelude:dispose', 'prelude:peek', 'a-branch-with-failing-records', 'rx-native-branch-with-inner-observables', 'branches>=9', 'a-key-slot-reused-by-hundreds-of-windows-while-a-value-waits-in-the-join', 'first-branch-ends-with-a-native-rx-operator']
     REQUIRED_OBSERVED = ['tuples_compared', 'branch_traces_recorded', 'lifetimes_checked', 'cold_source_runs_compared']
 
     def generate(self, rng, tier, shard, nshards):
@@ -103,6 +103,12 @@ class C08(Check):
             items = gen.gen_items(rng, hi=rng.choice([6, 12, 30]), sorted_=(ctx == 'time_split'))
             if plain and rng.random() < 0.34:       # (drawn: (k // len(names)) % 3 is what selects the join)
                 branches[rng.randrange(nb)] = [['rxflat']] + ([['map', 'add:1']] if rng.random() < 0.5 else [])
+            native_tail = None
+            if not plain and k % 5 != 2 and rng.random() < 0.15:
+                # an RxPY-native pass-through as the last operator of a branch on a multiplexed source (progs 'rxtap'): the branch's
+                # output is then a plain rx Observable carrying the mux events
+                native_tail = rng.choice([0, 0, rng.randrange(nb)])
+                branches[native_tail] = branches[native_tail] + [['rxtap']]
             dirty = None
             if k % 5 == 2 and not plain and items:
                 # one branch starts with a map whose function raises on some records; the mux errors leave the tee and
@@ -135,6 +141,8 @@ class C08(Check):
             out.tags.append('branches>=9')
         if case.get('slot_reuse_gap'):
             out.tags.append('a-key-slot-reused-by-hundreds-of-windows-while-a-value-waits-in-the-join')
+        if branches and branches[0] and branches[0][-1] == ['rxtap']:
+            out.tags.append('first-branch-ends-with-a-native-rx-operator')
         if any(n[0] == 'rxflat' for b in branches for _, n in progs.walk(b)):
             out.tags.append('rx-native-branch-with-inner-observables')
         if case.get('prelude') and progs.usable_prelude([tee], case['prelude']) and ctx != 'plain':
